@@ -134,7 +134,8 @@ class Runner:
         prefix_ops, where = [], []
         for n, (cfg, labels, toks, idx) in enumerate(items):
             lab = label_of_token(toks[idx])
-            t = max((i for i, l in enumerate(labels) if l == lab), default=None) if lab else None
+            labq = lab.replace("B:", "Bq:", 1) if lab else None     # started while parked in PubSubSync
+            t = max((i for i, l in enumerate(labels) if l in (lab, labq)), default=None) if lab else None
             if t is not None:
                 where.append(n)
                 prefix_ops.append(run_line(cfg, labels[:t]))
@@ -208,7 +209,9 @@ class Runner:
 
     def signature(self, cfg, labels, toks, idx):
         inv, kind, committed = self.preclass(cfg, labels, toks, idx)
-        return {"inversion": inv, "push": kind, "committed": committed,
+        # `synced`: a publication with offset on a positioned subscription, i.e. one PubSubSync must hold back
+        # until StopBuffering (C10-2, the known commit-before-push window, is about pushes it does not cover)
+        return {"inversion": inv, "push": kind, "committed": committed, "synced": kind == "PH" and cfg["pos"],
                 "ss": cfg["ss"], "pos": cfg["pos"], "bat": cfg["bat"], "rwq": cfg["rwq"],
                 "held_writer": "WH" in labels, "batch_timer": "T" in labels}
 
@@ -311,6 +314,10 @@ def run(ctx):
     for i, op in enumerate(run_ops):
         out = impl[i] if i < len(impl) else "<missing>"
         cfg, labels = parse_run(op)
+        if out.startswith("frames=") and "diverged" in fields(out):
+            # the harness stopped where the implementation left the model's path and released the parked
+            # actors in key order: the schedule that was executed is this prefix
+            labels = labels[:int(fields(out)["diverged"]) + 1]
         p = parse_out(out)
         if p is None:
             harness_errors += 1
@@ -335,7 +342,7 @@ def run(ctx):
         pos += len(bad)
         p = (toks, [])
         for idx, (inv, kind, committed) in zip(bad, pcs):
-            cls = (inv, kind, committed, cfg["ss"]) if inv == "push-before-subscribe" else \
+            cls = (inv, kind, committed, cfg["ss"], cfg["pos"]) if inv == "push-before-subscribe" else \
                 (inv, kind, cfg["rwq"], cfg["bat"], "WH" in labels, "T" in labels)
             seen_classes[cls] = seen_classes.get(cls, 0) + 1
             if seen_classes[cls] > 1:
